@@ -26,11 +26,14 @@ Recipe kinds ("k"):
     none | bool{v} | int{v} | float{x: float.hex() or "nan"/"inf"/"-inf"} | complex{re, im: hex}
     decimal{v: str} | fraction{n, d} | str{v} | bytes{hex} | bytearray{hex}
     list/tuple/set/frozenset{items: [recipe]} | dict{items: [[key recipe, value recipe]]}
-    iter{items} (list iterator) | gen{items} (generator) | range{args: [ints]}
+    iter{items} (list iterator) | gen{items} (generator) | range{args: [ints]} | slice{args: [int|None x3]}
     obj{cls: class recipe, tag: int, items: [recipe]}            logged user object (see below)
     plain{}  (object()) | type{name} (builtin type by name) | func{name} (builtin function by name)
     excclass{name} (builtin) / excclass{user: {n, base: excclass recipe, meta: "plain" | "abc", virtual: [builtin names]}}
     excinst{cls: excclass recipe, args: [recipe]}
+
+Further kinds can be registered by a check: ``EXTRA_KINDS[kind] = builder(recipe, materialise_nested)`` (C20 registers
+"sut" for enum members / instances of its corpus module); ``category`` answers the kind name for them.
 
 Logged user objects
 -------------------
@@ -50,8 +53,8 @@ operation log, where operator = "<class>#<tag>.<dunder>" and the description com
     reset_log()   clear          read_log()   copy of the log          take_log()   copy + clear
 
 Strategies (all return recipes; ``choice(*branches)`` is a non-flattening ``one_of``, use it to keep weights): ints() floats()
-edge_numbers() complexes() decimals() fractions() numbers() strs()
-bytess() scalars() hashables() containers() iterators() objects(...) exception_classes()
+edge_numbers() edge_numbers_of(kind) complexes() decimals() fractions() numbers() strs()
+bytess() scalars() hashables() containers() iterators() ranges() slices() objects(...) exception_classes()
 exception_instances() values(depth).  ``objects(profile=...)`` profiles: "cmp" (partial/total comparison
 protocols), "truth" (__bool__/__len__), "container" (__contains__/__iter__/__getitem__/__len__), "any".
 """
@@ -232,7 +235,7 @@ def build_class(spec: dict[str, Any]) -> type:
 
 # --------------------------------------------------------------------------------------- exception classes
 BUILTIN_EXCS = ["BaseException", "Exception", "ArithmeticError", "ZeroDivisionError", "LookupError", "KeyError",
-                "IndexError", "ValueError", "UnicodeError", "UnicodeDecodeError", "TypeError", "OSError",
+                "IndexError", "ValueError", "UnicodeError", "TypeError", "OSError",
                 "FileNotFoundError", "RuntimeError", "RecursionError", "StopIteration", "KeyboardInterrupt",
                 "AssertionError", "AttributeError"]
 _EXC_CACHE: dict[str, type] = {}
@@ -281,6 +284,10 @@ _BUILTIN_TYPES = {"int": int, "str": str, "float": float, "list": list, "dict": 
 _BUILTIN_FUNCS = {"len": len, "abs": abs, "print": print, "sorted": sorted, "isinstance": isinstance}
 
 
+# Checks may register further recipe kinds: EXTRA_KINDS["kind"] = builder(recipe, materialise_nested) -> fresh object
+EXTRA_KINDS: dict[str, Any] = {}
+
+
 def _mat(r: dict[str, Any]) -> Any:
     k = r["k"]
     if k == "none":
@@ -319,6 +326,8 @@ def _mat(r: dict[str, Any]) -> Any:
         return _gen([_mat(x) for x in r["items"]])
     if k == "range":
         return range(*[int(a) for a in r["args"]])
+    if k == "slice":
+        return slice(*r["args"])
     if k == "obj":
         cls = build_class(r["cls"])
         inst = object.__new__(cls)
@@ -335,9 +344,10 @@ def _mat(r: dict[str, Any]) -> Any:
         return build_exc_class(r)
     if k == "excinst":
         cls = build_exc_class(r["cls"])
-        if cls is UnicodeDecodeError:
-            return cls("utf-8", b"\xff", 0, 1, "vf")
         return cls(*[_mat(a) for a in r.get("args", [])])
+    extra = EXTRA_KINDS.get(k)
+    if extra is not None:
+        return extra(r, _mat)
     raise ValueError(f"unknown recipe kind {k!r}")
 
 
@@ -504,8 +514,8 @@ def snapshot(v: Any, consume: bool = False, _depth: int = 0) -> Any:
         return [tp.__name__, sorted((snapshot(x, consume, _depth + 1) for x in v), key=jdump)]
     if tp is dict:
         return ["dict", [[snapshot(a, consume, _depth + 1), snapshot(b, consume, _depth + 1)] for a, b in v.items()]]
-    if tp is range:
-        return ["range", v.start, v.stop, v.step]
+    if tp is range or tp is slice:
+        return [tp.__name__, v.start, v.stop, v.step]
     spec = getattr(tp, "_vf_spec", None)
     if spec is not None and "_vf_tag" in getattr(v, "__dict__", {}):
         d = v.__dict__
@@ -531,13 +541,31 @@ def same(a: Any, b: Any, consume: bool = False) -> bool:
 
 
 # --------------------------------------------------------------------------------------- strategies
+class _Choice(st.SearchStrategy):
+    """Uniform, non-flattening choice in a single draw level (keeps the Python call depth of nested draws small)."""
+
+    def __init__(self, branches: tuple) -> None:
+        super().__init__()
+        self._alts = branches
+
+    def do_draw(self, data):  # noqa: ANN001, ANN201
+        i = data.draw_integer(0, len(self._alts) - 1)
+        return data.draw(self._alts[i])
+
+    def calc_is_empty(self, recur):  # noqa: ANN001, ANN201
+        return all(recur(b) for b in self._alts)
+
+    def __repr__(self) -> str:
+        return f"choice({len(self._alts)} branches)"
+
+
 def choice(*branches: st.SearchStrategy) -> st.SearchStrategy:
     """Uniform choice between the given branches.
 
     ``st.one_of`` flattens nested ``one_of``s (also through ``.map``), which weights a branch by its number of leaves;
-    wrapping every branch in a 1-tuple keeps it opaque, so listing a branch twice really doubles its weight.
+    here every branch is opaque, so listing a branch twice really doubles its weight.
     """
-    return st.one_of(*[st.tuples(b).map(_first) for b in branches])
+    return _Choice(tuple(branches))
 
 
 def _first(t: tuple) -> Any:
@@ -599,6 +627,17 @@ def edge_numbers() -> st.SearchStrategy:
             + [{"k": "complex", "re": _f(c.real)["x"], "im": _f(c.imag)["x"]} for c in cx]
             + [{"k": "fraction", "n": n, "d": d} for n, d in fr] + [{"k": "bool", "v": True}, {"k": "bool", "v": False}])
     return st.sampled_from(pool)
+
+
+def edge_numbers_of(kind: str) -> st.SearchStrategy:
+    """Hand-picked edge values of one numeric kind ("int" | "float" | "decimal" | "complex" | "fraction")."""
+    if kind == "int":
+        return st.sampled_from([_i(v) for v in INT_EDGES])
+    if kind == "float":
+        return st.sampled_from([_f(x) for x in FLOAT_EDGES])
+    if kind == "decimal":
+        return st.sampled_from([{"k": "decimal", "v": d} for d in DECIMAL_EDGES])
+    return edge_numbers().map(lambda r: r)  # complex / fraction edges live in the mixed pool only
 
 
 def numbers() -> st.SearchStrategy:
@@ -731,6 +770,11 @@ def iterators(elem: st.SearchStrategy, max_size: int = 4) -> st.SearchStrategy:
 def ranges() -> st.SearchStrategy:
     return st.lists(st.integers(-5, 8), min_size=1, max_size=3).map(
         lambda a: {"k": "range", "args": a if len(a) < 3 or a[2] != 0 else [a[0], a[1], 1]})
+
+
+def slices() -> st.SearchStrategy:
+    part = st.one_of(st.none(), st.integers(-3, 5))
+    return st.tuples(part, part, st.one_of(st.none(), st.sampled_from([1, 2, -1]))).map(lambda t: {"k": "slice", "args": list(t)})
 
 
 def exception_classes(user: bool = True, abc: bool = True) -> st.SearchStrategy:
